@@ -92,6 +92,19 @@ for nserv in (1, 2, 3, 5):
             for k, rk, sk in zip(keys, routekey, stripped):
                 owner[sk] = hc.clients[hc.hasher.get_node(rk)].server
             n += 1
+            # the same item key under different server-keys: routing follows the server-key, every time
+            for rk in ["route%d" % i for i in range(8)] * 2:
+                want_srv = hc.clients[hc.hasher.get_node(rk)].server
+                for op, call in (("set", lambda: hc.set((rk, "shared"), "s")), ("get", lambda: hc.get((rk, "shared"))),
+                                 ("get_many", lambda: hc.get_many([(rk, "shared")]))):
+                    del log[:]
+                    call()
+                    if [x[0] for x in log] != [want_srv]:
+                        fail(op=op + " with (server_key, key)", key=repr((rk, "shared")), contacted=repr(log), placement=repr(want_srv)); break
+                if bad: break
+            if bad: break
+            for cl in hc.clients.values():
+                (cl.data if hasattr(cl, "data") else {}).pop(b"shared", None)
             # set_many -> every key written once, on its own server
             del log[:]
             failed = hc.set_many({k: ("v-%r" % (sk,)) for k, sk in zip(keys, stripped)})
